@@ -199,6 +199,9 @@ type Conn struct {
 	closed   bool
 	Seg      int
 	Reads    int
+	// AwaitExternalClose: the next Read first waits in real time (at most two seconds) for a Close from outside the
+	// simulation
+	AwaitExternalClose bool
 	// EOFJoin: the Read that takes the last queued bytes of a stream whose writer is gone reports io.EOF together
 	// with them (as an io.Reader may)
 	EOFJoin bool
@@ -275,6 +278,14 @@ func (c *Conn) Read(b []byte) (int, error) {
 		return 0, net.ErrClosed
 	}
 	c.Reads++
+	if c.AwaitExternalClose {
+		// the caller's library has just started a goroutine outside the simulation that closes this transport:
+		// wait (in real time, everything else parked) for that event, so that the read sees it in every run
+		c.AwaitExternalClose = false
+		for i := 0; i < 20000 && !c.closed; i++ {
+			time.Sleep(100 * time.Microsecond)
+		}
+	}
 	ok := vs.Block(c.readable, c.rdl)
 	if c.closed {
 		return 0, net.ErrClosed
